@@ -207,4 +207,18 @@ theorem getattrChain_eq_chainFind (S : TSet) (s : St) (key : Str) {id : Nat} {os
       | some r => rfl
       | none => exact ih n (by simpa using hf)
 
+/-- what `import="*"` takes from the thing a namespace stands for: the template's `_exports` (top-level defs and named
+blocks; not `body`), the module's public functions, nothing for a plain namespace -/
+def starMembers (S : TSet) (o : NsObj) : List Str :=
+  match o.kind with
+  | .tmpl u =>
+    match setLookup S u with
+    | .found t => t.exports
+    | _ => []
+  | .module m =>
+    match modLookup S m with
+    | some pm => (pm.members.filter fun (k, kind, _) => k.head? ≠ some '_' ∧ kind = .fn).map (·.1)
+    | none => []
+  | .plain => []
+
 end MakoModel.Namespace
